@@ -6,5 +6,6 @@ NOT_DECIDED = {
     'C03': ['wall-clock proportionality: only termination, linear iteration bounds and depth are decided; a bounded time guard complements'],
     'C08': ['RFC 7606 class per attribute type: uninterpreted in the deductive part, live class flags in the bounded part'],
     'C19': ['frame scan over all decode-reachable functions not built; Capability.klass kls.ID mutation open'],
+    'C07': ['Capabilities objects abstract; ADD-PATH RequirePath.setup, OPEN encode/decode, Capabilities.new bounded only'],
     'C06': ['the kernel delivers the byte stream faithfully (recv callee contract); interference from other asyncio tasks at await is not decided'],
 }
